@@ -18,13 +18,16 @@ func init() {
 		Level: "other",
 		Explanation: "Decides the constant-agreement and time-zone clauses: (R-VERCONST) from versionConvert.execute are extracted the radix R (every constant the accumulator is multiplied by; all equal), the largest admitted component B-1 (bounds proven by the branch facts at the accumulation), the admitted length range [lo, hi] (bounds proven at the conversion of the second parameter) and the default lengths of the operator table; the oracle is B <= R (no component carries into its neighbour, which is exactly what breaks order at 9999/10000), lo >= 1, every default in [lo, hi], R^hi - 1 <= MaxInt64 (no overflow), the accumulation is acc*R + component for present components and acc*R for missing ones, over i = 0..validLen-1 in order, and a component that does not parse returns an error; " +
 			"(R-UTC) the only time-parsing callee of timeConvert.execute is time.Parse (UTC when the layout has no zone; not ParseInLocation, no time.Local), the value returned is (time.Time).Unix of that parse, and the parse error is returned, not dropped — the sandbox runs in UTC, so a local-zone mutant passes every test here; (R-TIMEMODES) every mode a table entry constructs is handled by the switch, the default layouts are the documented ones, and the layout handed to time.Parse is parameter 2 exactly in the arities/modes that accept one (custom layouts honoured), else the entry's own layout. " +
-			"Components are parsed with strconv.ParseInt(_, 10, _) (base clause of R-VERCONST). NOT decided: the order relation itself over all pairs (arithmetic on those constants, stated not mechanised beyond them); negative components (outside the stated domain).",
+			"Components are parsed with strconv.ParseInt(_, 10, _) (base clause of R-VERCONST). NOT decided: the order relation itself over all pairs (arithmetic on those constants, stated not mechanised beyond them); negative components (outside the stated domain). Round 2: the fold rules of C10 shared (literals are folded at compile time).",
 		Run:       runC19,
 		Witnesses: c19Witnesses,
 	})
 }
 
 func runC19(w *World, r *Report) {
+	// version and date literals are folded at compile time: the folded value must be the operator applied to these
+	// very arguments (fold only through the approved call, on success, no cache in between)
+	runC10Core(w, r)
 	ruleVerConst(w, r)
 	ruleUTC(w, r)
 	ruleTimeModes(w, r)
